@@ -41,6 +41,10 @@ func genTxnC(r *sim.Rand, tier, prop string) *sim.Case {
 	// A tiny watermark window forces window rebuilds inside a run (the shipped
 	// window needs 65536 commits); 0 = shipped size.
 	c.Cfg["wm_window"] = r.Pick64(0, 0, 2, 4)
+	// scheduling policy: uniform random or PCT of depth 1..4
+	c.Cfg["pct_depth"] = r.Pick64(0, 0, 1, 2, 2, 3, 3, 4)
+	c.Cfg["pct_horizon"] = r.Pick64(100, 300, 600)
+	c.Cfg["pause_odds"] = r.Pick64(0, 3, 6, 12)
 	ntasks := r.Pick(2, 3, 4)
 	c.Cfg["tasks"] = int64(ntasks)
 	for t := 0; t < ntasks; t++ {
@@ -104,8 +108,8 @@ func parseScript(op sim.Op) txnScript {
 	return sc
 }
 
-func execTxnC(t *testing.T, c *sim.Case, prop string) *sim.Result {
-	res := sim.NewResult()
+func execTxnC(t *testing.T, c *sim.Case, prop string) (res *sim.Result) {
+	res = sim.NewResult() // named result: it survives the recovered end-of-bubble panic
 	defer recoverBubbleDeadlock(res)
 	synctest.Test(t, func(t *testing.T) {
 		w := NewWorld(t, c, res)
@@ -361,7 +365,11 @@ func checkTxnHistory(m *modeC, prop string) {
 				for k := range o.writes {
 					res.Checks++
 					if readKeys[k] {
-						res.Violate(t.commit.invoke, "missed_conflict", sigBase(), "txn%d (readTs %d) read k%d and committed at %d although txn%d committed a write to it at %d", t.ord, t.readTs, k, t.commitTs, o.ord, o.commitTs)
+						sg := sigBase()
+						// The read watermark only protects a reader whose read timestamp is
+						// above the mark when it begins (index 0 is never tracked).
+						sg["read_ts_at_or_below_read_mark"] = yn(t.readTs == 0 || t.begin.readMarkAtBegin >= t.readTs)
+						res.Violate(t.commit.invoke, "missed_conflict", sg, "txn%d (readTs %d) read k%d and committed at %d although txn%d committed a write to it at %d", t.ord, t.readTs, k, t.commitTs, o.ord, o.commitTs)
 					}
 				}
 			}
